@@ -163,3 +163,33 @@ func VH_C16_st() {
 	src = append(src, ')')
 	vC16Run(src)
 }
+
+// the same text evaluated again on the same VM after the host tightened the
+// configuration: nothing compiled under the old flags may be reused
+var vC16RerunTexts = []string{
+	"i = 0; while i < 2 { i = i + 1 }; i", "if 1 { 2 } else { 3 }", "func fn1() { 1 }; fn1()", "1 | 2", "3 & 1", "2d", "2a5", "b2", "f", "2c5", "`{% if 1 { 2 } %}`",
+}
+
+func init() {
+	vHarnesses["VH_C16_rerun"] = VH_C16_rerun
+}
+
+//vh:prop=C16 tiers=quick,thorough sigkeys=text budget_s=600 bounds="11 texts (loop, branch, function, bitwise operators, default-sides dice, each dice family, a template with a statement block) parsed on a VM with everything enabled, then parsed again - byte-identical - on the same VM after all seven flags were set to symbolic booleans: the second compilation obeys the new flags (opcode => flag, as in VH_C16_gate) and a third parse after restoring the first configuration succeeds again"
+func VH_C16_rerun() {
+	src := vC16RerunTexts[vChoice("text", len(vC16RerunTexts))]
+	vm := vNewVM()
+	vm.Config.DiceMinMode = true
+	vAssert(vm.Run(src) == nil, "text-evaluates-with-everything-enabled")
+	wod, coc, fate, dc := vBool("EnableDiceWoD"), vBool("EnableDiceCoC"), vBool("EnableDiceFate"), vBool("EnableDiceDoubleCross")
+	noStmts, noNDice, noBit := vBool("DisableStmts"), vBool("DisableNDice"), vBool("DisableBitwiseOp")
+	vm.Config.EnableDiceWoD, vm.Config.EnableDiceCoC, vm.Config.EnableDiceFate, vm.Config.EnableDiceDoubleCross = wod, coc, fate, dc
+	vm.Config.DisableStmts, vm.Config.DisableNDice, vm.Config.DisableBitwiseOp = noStmts, noNDice, noBit
+	err := vm.Parse(src)
+	vReach("reparsed")
+	if err == nil {
+		vC16Check(vm, wod, coc, fate, dc, noStmts, noNDice, noBit)
+	}
+	vm.Config.EnableDiceWoD, vm.Config.EnableDiceCoC, vm.Config.EnableDiceFate, vm.Config.EnableDiceDoubleCross = true, true, true, true
+	vm.Config.DisableStmts, vm.Config.DisableNDice, vm.Config.DisableBitwiseOp = false, false, false
+	vAssert(vm.Run(src) == nil, "text-evaluates-again-with-everything-enabled")
+}
